@@ -3,6 +3,7 @@
 package main
 
 import (
+	"bytes"
 	"fmt"
 	"io"
 	"log"
@@ -136,7 +137,10 @@ func randomCmds(r *cq.RNG, up bool, maxBytes int, valid bool) []lorawan.Payload 
 			mc = &lorawan.MACCommand{CID: b.CID, Payload: macfmt.Random(r, ki, valid || r.Intn(4) != 0)}
 		case c < 8 && len(pcids) > 0:
 			cid := pcids[r.Intn(len(pcids))]
-			mc = &lorawan.MACCommand{CID: lorawan.CID(cid), Payload: &lorawan.ProprietaryMACCommandPayload{Bytes: r.Bytes(prop[cid])}}
+			// the payload is a sub-slice with spare capacity of a buffer the caller owns (another command's
+			// payload may sit right behind it): marshalling must not write there
+			buf := r.Bytes(prop[cid] + r.Intn(6))
+			mc = &lorawan.MACCommand{CID: lorawan.CID(cid), Payload: &lorawan.ProprietaryMACCommandPayload{Bytes: buf[:prop[cid]]}}
 		default:
 			// a CID without payload in this direction (LinkCheckReq, DevStatusReq, DeviceTimeReq, unregistered proprietary ...)
 			var cid byte
@@ -163,9 +167,94 @@ func randomCmds(r *cq.RNG, up bool, maxBytes int, valid bool) []lorawan.Payload 
 	return out
 }
 
+// backing returns the caller-owned memory behind the proprietary payloads of cmds (up to capacity)
+func backing(cmds []lorawan.Payload) string {
+	out := ""
+	for _, c := range cmds {
+		if mc, ok := c.(*lorawan.MACCommand); ok {
+			if pp, ok := mc.Payload.(*lorawan.ProprietaryMACCommandPayload); ok {
+				out += fmt.Sprintf("%x|", pp.Bytes[:cap(pp.Bytes)])
+			}
+		}
+	}
+	return out
+}
+
+// frameRoute sends the same command sequence through the frame encoders (FHDR FOpts when it fits in 15
+// bytes, and a port-0 FRMPayload) and through the frame decoder + DecodeFOptsToMACCommands /
+// DecodeFRMPayloadToMACCommands. The per-command results (oenc, odec) are compared with the model in
+// Coq; here the frame route must agree with them: an out-of-range command anywhere in the sequence is
+// reported by the frame encoder too, and an encodable sequence comes back as the same commands.
+func frameRoute(s *cases.Set, up bool, cmds []lorawan.Payload, all []byte, oenc, odec string) {
+	if oenc == cq.Panic || len(cmds) == 0 {
+		return
+	}
+	t := macfmt.Items(cmds)
+	try := func(where string, build func() *lorawan.MACPayload, get func(m *lorawan.MACPayload) []lorawan.Payload, decode func(p *lorawan.PHYPayload) error) {
+		defer func() {
+			if rec := recover(); rec != nil {
+				s.Fail(cases.GoFail{Key: "frame-route-panic:" + where + ":" + t, What: fmt.Sprintf("panic: %v", rec), Replay: map[string]interface{}{"commands": t, "uplink": up}})
+			}
+		}()
+		phy := lorawan.PHYPayload{MHDR: lorawan.MHDR{MType: mtype(up), Major: lorawan.LoRaWANR1}, MACPayload: build()}
+		b, err := phy.MarshalBinary()
+		if oenc == cq.Err {
+			if err == nil {
+				s.Fail(cases.GoFail{Key: "frame-route:" + where + ":unreported:" + t, What: "a command of the sequence cannot be encoded, but the frame encoder reports no error (bytes " + fmt.Sprintf("%x", b) + ")",
+					Replay: map[string]interface{}{"commands": t, "uplink": up, "where": where}})
+			}
+			return
+		}
+		if err != nil {
+			s.Fail(cases.GoFail{Key: "frame-route:" + where + ":refused:" + t, What: "every command encodes on its own but the frame encoder refuses the sequence: " + err.Error(),
+				Replay: map[string]interface{}{"commands": t, "uplink": up, "where": where}})
+			return
+		}
+		var q lorawan.PHYPayload
+		got := cq.Err
+		if q.UnmarshalBinary(b) == nil && decode(&q) == nil {
+			got = cq.Ok(macfmt.Items(get(q.MACPayload.(*lorawan.MACPayload))))
+		}
+		if got != odec {
+			s.Fail(cases.GoFail{Key: "frame-route:" + where + ":differs:" + t, What: "through the frame the sequence decodes to " + got + ", the command stream alone to " + odec,
+				Replay: map[string]interface{}{"commands": t, "uplink": up, "where": where, "frame": fmt.Sprintf("%x", b)}})
+		}
+	}
+	if len(all) <= 15 || oenc == cq.Err {
+		try("fopts", func() *lorawan.MACPayload { return &lorawan.MACPayload{FHDR: lorawan.FHDR{FOpts: cmds}} },
+			func(m *lorawan.MACPayload) []lorawan.Payload { return m.FHDR.FOpts }, func(p *lorawan.PHYPayload) error { return p.DecodeFOptsToMACCommands() })
+	}
+	port := uint8(0)
+	try("frmpayload", func() *lorawan.MACPayload { return &lorawan.MACPayload{FPort: &port, FRMPayload: cmds} },
+		func(m *lorawan.MACPayload) []lorawan.Payload { return m.FRMPayload }, func(p *lorawan.PHYPayload) error { return p.DecodeFRMPayloadToMACCommands() })
+}
+
 func cmdsCase(s *cases.Set, r *cq.RNG, up bool, cmds []lorawan.Payload, tag string) {
 	var all []byte
 	oenc := ""
+	t0 := macfmt.Items(cmds)
+	mem0 := backing(cmds)
+	defer func() {
+		// encoding only inspects the commands: neither their values nor the memory behind their slices may change,
+		// and encoding them again gives the same bytes
+		if t1, mem1 := macfmt.Items(cmds), backing(cmds); t1 != t0 || mem1 != mem0 {
+			s.Fail(cases.GoFail{Key: "marshal-changes-commands:" + t0, What: "MACCommand.MarshalBinary changed the commands or caller-owned memory behind a payload slice",
+				Replay: map[string]interface{}{"commands_before": t0, "commands_after": t1, "memory_before": mem0, "memory_after": mem1}})
+			return
+		}
+		if strings.HasPrefix(oenc, "(Ok") {
+			var again []byte
+			for _, c := range cmds {
+				if b, err := c.MarshalBinary(); err == nil {
+					again = append(again, b...)
+				}
+			}
+			if !bytes.Equal(again, all) {
+				s.Fail(cases.GoFail{Key: "marshal-twice:" + t0, What: fmt.Sprintf("encoding the same commands a second time gives %x instead of %x", again, all),
+					Replay: map[string]interface{}{"commands": t0}})
+			}
+		}
+	}()
 	func() {
 		defer func() {
 			if rec := recover(); rec != nil {
@@ -186,6 +275,7 @@ func cmdsCase(s *cases.Set, r *cq.RNG, up bool, cmds []lorawan.Payload, tag stri
 	if strings.HasPrefix(oenc, "(Ok") {
 		odec = decodeStream(up, all)
 	}
+	frameRoute(s, up, cmds, all, oenc, odec)
 	t := macfmt.Items(cmds)
 	s.Add(cases.Case{Term: fmt.Sprintf("CCmds %v %s %s %s %s", up, histTerm(), t, oenc, odec),
 		Key: fmt.Sprintf("cmds:up=%v:%x", up, all), Kind: fmt.Sprintf("cmds-%s-up=%v", tag, up), Nontrivial: len(cmds) > 1,
